@@ -709,8 +709,10 @@ class EscapeAnalysis:
                 if isinstance(v, ast.Call) and not v.args and \
                         isinstance(v.func, ast.Attribute) and \
                         v.func.attr in ('upper', 'lower', 'casefold') and \
-                        isinstance(v.func.value, ast.Name) and \
-                        v.func.value.id == e.id:
+                        ((isinstance(v.func.value, ast.Name) and
+                          v.func.value.id == e.id) or
+                         (isinstance(v.func.value, ast.Subscript) and
+                          not isinstance(v.func.value.slice, ast.Slice))):
                     # the case mapping of one character can be longer
                     # ('\xdf'.upper() == 'SS'); accepted only together with a
                     # character-class test of the result (below)
